@@ -679,6 +679,10 @@ func (fr *Frame) applyAssumed(st *State, g string, fc *FuncContract, name string
 		for _, e := range fc.Effects {
 			if e == "*" {
 				allGhost = true
+				if t := fr.top(); t.fc != nil && !t.effectAllowed("*") {
+					vc.addObl(&Obligation{Name: fmt.Sprintf("%s#frame.effect.any", vc.unit), Kind: "frame", Props: t.props(),
+						Guard: "true", Goal: "false", Src: "callee " + fc.Name + " may emit any effect; the caller's effects clause must be `*`"})
+				}
 				continue
 			}
 			cnt, tm, avs := vc.effectVars(e)
@@ -919,6 +923,10 @@ func (fr *Frame) applyContract(st *State, g string, fc *FuncContract, callee *ss
 	for _, e := range fc.Effects {
 		if e == "*" {
 			allGhost = true
+			if t := fr.top(); t.fc != nil && !t.effectAllowed("*") {
+				vc.addObl(&Obligation{Name: fmt.Sprintf("%s#frame.effect.any", vc.unit), Kind: "frame", Props: t.props(),
+					Guard: "true", Goal: "false", Src: "callee " + fc.Name + " may emit any effect; the caller's effects clause must be `*`"})
+			}
 			continue
 		}
 		cnt, tm, avs := vc.effectVars(e)
